@@ -434,8 +434,11 @@ class Body:
 
 class Facts:
     def __init__(self, path):
-        with open(path) as f:
-            j = json.load(f)
+        if isinstance(path, dict):
+            j = path
+        else:
+            with open(path) as f:
+                j = json.load(f)
         self.j = j
         self.config = j["config"]
         self.nonce = j["nonce"]
